@@ -124,6 +124,7 @@ type Sim struct {
 	lastSiteID int32
 	abort      bool
 	endReason  string
+	panicCount int
 	wakeTimes  []time.Time // instants at which parked conditions must be re-evaluated
 }
 
@@ -849,6 +850,15 @@ func Tracing() bool {
 	return s != nil && s.cfg.KeepLog
 }
 
+// PanicCount returns the number of non-sentinel panics recorded so far in this run.
+func PanicCount() int {
+	s := active.Load()
+	if s == nil {
+		return 0
+	}
+	return s.panicCount
+}
+
 // PanicSentinel is the value harness code panics with on purpose.
 type PanicSentinel struct{ Tag string }
 
@@ -870,6 +880,7 @@ func (s *Sim) recordPanic(e any, unrecovered bool) {
 	if err, ok := e.(error); ok && strings.HasPrefix(err.Error(), "verif-sentinel-panic:") {
 		return
 	}
+	s.panicCount++
 	kind := "recovered"
 	if unrecovered {
 		kind = "UNRECOVERED"
